@@ -365,7 +365,10 @@ def _get_UA_pairs(UA: Sequence[int], AC: np.ndarray[tuple[N, N], np.dtype[np.int
 
     max_atoms_in_combo = 0
     UA_pairs = [()]
-    for combo in list(itertools.combinations(bonds, int(len(UA) / 2))):
+    # unsaturated atoms without an unsaturated neighbour (counter-ions,
+    # radical centres) cannot be paired: never ask for more pairs than bonds
+    n_pairs = min(len(bonds), int(len(UA) / 2))
+    for combo in list(itertools.combinations(bonds, n_pairs)):
         flat_list = [item for sublist in combo for item in sublist]
         atoms_in_combo = len(set(flat_list))
         if atoms_in_combo > max_atoms_in_combo:
